@@ -44,6 +44,9 @@ PROPS = {
                 undecided_sentences=["'no outside system ... ever overlaps the batch' in time (trusted execution discipline); inner thread-local systems are outside the union (known finding KF1, reported under C12)"]),
     "C18": dict(runs=[dict(unit=U1, groups=["tot"], mode="T"), dict(unit=U1, groups=["grd"], mode="P")], own_groups=["tot", "grd", "T", "P"], owns_shared="safety",
                 undecided_sentences=["'with a message quoting the offending name': string formatting is outside Verus; only 'the call does not return' is decided"]),
+    "C20": dict(runs=[dict(unit=U1, groups=["plan"], mode="T")], own_groups=["plan"], owns_shared="safety",
+                undecided_sentences=["the text itself: format strings and the sanitised / placeholder labels are uninterpreted (the label of a named system is sanitise(a name registered for that id), of an unnamed one sanitise(placeholder(id)))",
+                                     "'at the position at which the built dispatcher really runs it': the printed table is the id table; that it has the shape of the executed list is the lock-step invariant (C04) and build() returning that list"]),
     "C13": dict(runs=[dict(unit=U1, groups=["hooks"])], own_groups=["hooks"], undecided_sentences=[]),
 }
 
